@@ -331,12 +331,24 @@ def parameters(rep, idx, P, sig, icls):
         if isinst is not None:
             try:
                 found = dl.F
+                # properties of `other` (an instance of the same class once the isinstance test passed) resolve like those of self
+                from .common import property_aliases
+                oth = {('attr', ('name', 'other'), k[2]): ir.subst(v_, lambda x: ('name', 'other') if x == ('name', 'self') else None)
+                       for k, v_ in property_aliases(idx, sig).items()}
                 for v, gen, ln in c.t.returns:
-                    conds = [(c.norm(fr[1]), fr[2]) for fr in gen if fr[0] == 'pyif']
+                    def O(e_):
+                        e_ = c.norm(ir.subst(c.norm(e_), lambda x: oth.get(x)))
+                        return c.norm(ir.subst(e_, lambda x: oth.get(x)))
+                    conds = [(O(fr[1]), fr[2]) for fr in gen if fr[0] == 'pyif']
+                    v = c.norm(ir.subst(c.norm(v), lambda x: oth.get(x)))
+                    v = c.norm(ir.subst(v, lambda x: oth.get(x)))
                     found = dl.f_or(found, dl.f_and(_formula(c, conds), c.eng.cond(v)))
                 alts = []
+                def P2(text):
+                    e_ = c.norm(ir.subst(c.parse(text), lambda x: oth.get(x)))
+                    return c.norm(ir.subst(e_, lambda x: oth.get(x)))
                 for p in params:
-                    alts.append([c.eng.cond(c.parse(f"self.{p} == other.{p}")), c.eng.cond(c.parse(f"Shape.cast(self.{p}) == Shape.cast(other.{p})"))])
+                    alts.append([c.eng.cond(P2(f"self.{p} == other.{p}")), c.eng.cond(P2(f"Shape.cast(self.{p}) == Shape.cast(other.{p})"))])
                 ok = False
                 import itertools
                 for combo in itertools.product(*alts) if alts else [()]:
